@@ -1522,6 +1522,9 @@ def r06u(ctx, rep, rule="R06u"):
     if len(pos) >= 2 and any(b in body for b in cmp_):
         rep.ok(rule, k3, "Transform::expand compares the positions of the ellipsis-bound variables before and after each repetition",
                [ex.span])
+    elif all(bad is None for _, _, bad in _cycles_without_progress(ex)):
+        rep.ok(rule, k3, "every cycle of Transform::expand's repetition passes the exit test of a counter (R06j): a repetition that "
+               "consumes no match ends with the bound", [ex.span])
     else:
         rep.fail(rule, k3, "Transform::expand repeats a sub-template as long as it expands, without checking that the repetition consumed a "
                  "match: a variable used under more ellipses than it was bound under — ((x ...) ...) for a pattern (x ...) — is "
@@ -1618,6 +1621,85 @@ def r06x(ctx, rep, rule="R06x"):
             rep.ok(rule, key, "%s builds Some(..) on every path (%s)" % (short_path(path), why), [f.span])
 
 
+def _cycles_without_progress(f):
+    """[(loop index, header block, offending cycle or None)] for the natural loops of f: a cycle through the header that passes
+    no Iterator::next, no worklist pop over an owned Cell tree and no exit test of an increment-only counter"""
+    out = []
+    loops = {}
+    for src, h in f.back_edges():
+        loops.setdefault(h, set()).update((f.reach_from(h) & f.reach_back(src)) | {h, src})
+    for h, body in sorted(loops.items()):
+        progress = set()
+        for bb, t in f.calls():
+            if bb in body and re.search(r"Iterator>::next$|::next$", (t.get("fnargs") or callee(t) or "")) and \
+                    "peek" not in (callee(t) or ""):
+                progress.add(bb)
+        # a worklist of references into an owned tree (Cell holds its children in Box / Vec: no sharing, no cycles): every
+        # pop takes a node off, and what is pushed are children of the popped node, never the node itself
+        pops = [(bb, t) for bb, t in f.calls() if bb in body and
+                re.search(r"Vec::<&(mut )?marwood::cell::Cell>::pop$", t.get("fnargs") or "")]
+        if pops:
+            popped = set()
+            for bb, t in pops:
+                popped.add(t["dest"]["l"])
+            same = False
+            for bb, t in f.calls():
+                if bb in body and re.search(r"Vec::<&(mut )?marwood::cell::Cell>::push$", t.get("fnargs") or "") and len(t["args"]) > 1:
+                    oa = f.origin(t["args"][1])
+                    if oa[0] in ("local", "call") and not [e for e in (oa[2] if len(oa) > 2 else []) if e != "*"]:
+                        l_ = oa[1] if oa[0] == "local" else None
+                        if l_ in popped:
+                            same = True
+            if not same:
+                progress |= {bb for bb, t in pops}
+        # counters: locals incremented by a constant inside the loop and assigned nowhere else in it but from that sum or a constant
+        incs = {}
+        for bb, j, st in f.stmts():
+            rv = st["rv"]
+            if bb in body and rv["k"] == "bin" and rv["op"] in ("Add", "AddWithOverflow", "AddUnchecked"):
+                pa, cb = op_place(rv["a"]), op_const(rv["b"])
+                if pa is not None and not pa["p"] and cb is not None and cb.get("int", 0) > 0:
+                    incs[st["lhs"]["l"]] = pa["l"]
+        counters = set()
+        for bb, j, st in f.stmts():
+            rv = st["rv"]
+            if bb in body and rv["k"] == "use" and not st["lhs"]["p"]:
+                pa = op_place(rv["a"])
+                if pa is not None and pa["l"] in incs and incs[pa["l"]] == st["lhs"]["l"]:
+                    counters.add(st["lhs"]["l"])
+        for bb in sorted(body):
+            t = f.blocks[bb]["term"]
+            if t["k"] != "switch":
+                continue
+            o = f.origin(t["op"])
+            if o[0] != "rv" or o[1]["rv"]["k"] != "bin" or o[1]["rv"]["op"] not in ("Gt", "Ge", "Lt", "Le"):
+                continue
+            sides = []
+            for side in ("a", "b"):
+                oo = f.origin(o[1]["rv"][side])
+                if oo[0] == "local":
+                    sides.append(oo[1])
+            leaves = any(tg not in body for _, tg in t["targets"]) or t["otherwise"] not in body
+            if leaves and any(c in counters for c in sides):
+                progress.add(bb)
+        # is there a cycle through the header that avoids every progress block?
+        bad = None
+        if h not in progress:
+            seen, stack = set(), [(s_, [h, s_]) for s_ in f.succ[h] if s_ in body]
+            while stack:
+                x, pth = stack.pop()
+                if x == h:
+                    bad = pth
+                    break
+                if x in seen or x in progress or x not in body:
+                    continue
+                seen.add(x)
+                for y in f.succ[x]:
+                    stack.append((y, pth + [y]))
+        out.append((sorted(loops).index(h) + 1, h, bad))
+    return out
+
+
 def r06j(ctx, rep, rule="R06j"):
     """every cycle of the macro expander makes progress"""
     facts = ctx["facts"]
@@ -1634,79 +1716,9 @@ def r06j(ctx, rep, rule="R06j"):
     for path, f in sorted(facts.fns.items()):
         if not path.startswith("marwood::vm::transform::") or "::tests::" in path:
             continue
-        loops = {}
-        for src, h in f.back_edges():
-            loops.setdefault(h, set()).update((f.reach_from(h) & f.reach_back(src)) | {h, src})
-        for h, body in sorted(loops.items()):
+        for idx, h, bad in _cycles_without_progress(f):
             n += 1
-            progress = set()
-            for bb, t in f.calls():
-                if bb in body and re.search(r"Iterator>::next$|::next$", (t.get("fnargs") or callee(t) or "")) and \
-                        "peek" not in (callee(t) or ""):
-                    progress.add(bb)
-            # a worklist of references into an owned tree (Cell holds its children in Box / Vec: no sharing, no cycles): every
-            # pop takes a node off, and what is pushed are children of the popped node, never the node itself
-            pops = [(bb, t) for bb, t in f.calls() if bb in body and
-                    re.search(r"Vec::<&(mut )?marwood::cell::Cell>::pop$", t.get("fnargs") or "")]
-            if pops:
-                popped = set()
-                for bb, t in pops:
-                    popped.add(t["dest"]["l"])
-                same = False
-                for bb, t in f.calls():
-                    if bb in body and re.search(r"Vec::<&(mut )?marwood::cell::Cell>::push$", t.get("fnargs") or "") and len(t["args"]) > 1:
-                        oa = f.origin(t["args"][1])
-                        if oa[0] in ("local", "call") and not [e for e in (oa[2] if len(oa) > 2 else []) if e != "*"]:
-                            l_ = oa[1] if oa[0] == "local" else None
-                            if l_ in popped:
-                                same = True
-                if not same:
-                    progress |= {bb for bb, t in pops}
-            # counters: locals incremented by a constant inside the loop and assigned nowhere else in it but from that sum or a constant
-            incs = {}
-            for bb, j, st in f.stmts():
-                rv = st["rv"]
-                if bb in body and rv["k"] == "bin" and rv["op"] in ("Add", "AddWithOverflow", "AddUnchecked"):
-                    pa, cb = op_place(rv["a"]), op_const(rv["b"])
-                    if pa is not None and not pa["p"] and cb is not None and cb.get("int", 0) > 0:
-                        incs[st["lhs"]["l"]] = pa["l"]
-            counters = set()
-            for bb, j, st in f.stmts():
-                rv = st["rv"]
-                if bb in body and rv["k"] == "use" and not st["lhs"]["p"]:
-                    pa = op_place(rv["a"])
-                    if pa is not None and pa["l"] in incs and incs[pa["l"]] == st["lhs"]["l"]:
-                        counters.add(st["lhs"]["l"])
-            for bb in sorted(body):
-                t = f.blocks[bb]["term"]
-                if t["k"] != "switch":
-                    continue
-                o = f.origin(t["op"])
-                if o[0] != "rv" or o[1]["rv"]["k"] != "bin" or o[1]["rv"]["op"] not in ("Gt", "Ge", "Lt", "Le"):
-                    continue
-                sides = []
-                for side in ("a", "b"):
-                    oo = f.origin(o[1]["rv"][side])
-                    if oo[0] == "local":
-                        sides.append(oo[1])
-                leaves = any(tg not in body for _, tg in t["targets"]) or t["otherwise"] not in body
-                if leaves and any(c in counters for c in sides):
-                    progress.add(bb)
-            # is there a cycle through the header that avoids every progress block?
-            bad = None
-            if h not in progress:
-                seen, stack = set(), [(s_, [h, s_]) for s_ in f.succ[h] if s_ in body]
-                while stack:
-                    x, pth = stack.pop()
-                    if x == h:
-                        bad = pth
-                        break
-                    if x in seen or x in progress or x not in body:
-                        continue
-                    seen.add(x)
-                    for y in f.succ[x]:
-                        stack.append((y, pth + [y]))
-            key = "%s|%s|loop#%d" % (rule, f.short, sorted(loops).index(h) + 1)
+            key = "%s|%s|loop#%d" % (rule, f.short, idx)
             (rep.ok if bad is None else rep.fail)(
                 rule, key, "every cycle of the loop passes an Iterator::next, a worklist pop or a counter's exit test" if bad is None else
                 "%s has a loop with a cycle that neither consumes an iterator nor passes the exit test of a counter: nothing bounds the "
